@@ -22,6 +22,19 @@ func TestReplay(t *testing.T) { ev.Replay(t) }
 
 const tol = 1e-10
 
+// floorClamped is floor(k) as an int, clamped (as a float, before converting: the conversion
+// of an out-of-range float is implementation-specific) to +-2^40, far outside every support.
+func floorClamped(k float64) int {
+	f := math.Floor(k)
+	if f > 0x1p40 {
+		return 1 << 40
+	}
+	if f < -0x1p40 {
+		return -(1 << 40)
+	}
+	return int(f)
+}
+
 // probes returns every integer from lo-2 to hi+2 and the half-integers between.
 func probes(lo, hi int) []float64 {
 	var ks []float64
@@ -30,7 +43,9 @@ func probes(lo, hi int) []float64 {
 		// (floor(k) semantics must hold right up to the integer)
 		ks = append(ks, float64(k), float64(k)+0.5, math.Nextafter(float64(k), math.Inf(-1)), math.Nextafter(float64(k), math.Inf(1)))
 	}
-	return append(ks, -5e-324, -1e-17, -1e-100, 5e-324, math.Copysign(0, -1))
+	// and far outside the support, beyond the range of int32, int64 and float64
+	return append(ks, -5e-324, -1e-17, -1e-100, 5e-324, math.Copysign(0, -1),
+		1e6, 3e9, 1e18, 0x1p63, 1e19, 1e300, math.MaxFloat64, math.Inf(1), -3e9, -0x1p63, -1e19, -1e300, math.Inf(-1))
 }
 
 // ---------------------------------------------------------------- hypergeometric
@@ -90,7 +105,7 @@ var checkHyper = ev.Register("hypergeometric", func(c *HCase) ev.Outcome {
 	}
 	nt := false
 	for _, k := range ks {
-		ki := int(math.Floor(k))
+		ki := floorClamped(k)
 		wantP, wantC := 0.0, 0.0
 		if ki >= lo && ki <= hi {
 			wantP = ratio(mass[ki], den)
@@ -191,7 +206,7 @@ var checkBinom = ev.Register("binomial", func(c *BCase) ev.Outcome {
 	}
 	nt := false
 	for _, k := range ks {
-		ki := int(math.Floor(k))
+		ki := floorClamped(k)
 		wantP, wantC := 0.0, 0.0
 		if ki >= 0 && ki <= c.N {
 			wantP = ref.F64(mass[ki])
